@@ -99,6 +99,42 @@ def foreign_variant(data_segments):
     return b''.join(s[0] for s in data_segments)
 
 
+def write_with_refused_calls(program, segs):
+    import io
+    ns = sut.load()
+    stream = io.BytesIO()
+    writer = ns.DiffXWriter(stream, encoding=program['encoding'])
+    w = spec.Walker(program['encoding'])
+
+    for op, kw in program['calls']:
+        try:
+            gen.call_writer(writer, op, kw)
+        except Exception as e:
+            return ('legal-call-rejected-after-a-refused-call',
+                    '%s after %s: %r' % (op, w.prev, e))
+
+        w.advance(op, kw)
+
+        for bad_op in ('change', 'file'):
+            if not w.accepts(bad_op):
+                try:
+                    gen.call_writer(writer, bad_op, {'encoding': X})
+                except Exception:
+                    continue
+
+                return ('illegal-container-call-accepted',
+                        '%s accepted after %s' % (bad_op, w.prev))
+
+    bad = spec.match_segments(stream.getvalue(), segs)
+
+    if bad is not None:
+        i, pos = bad
+        return ('refused-call-changed-the-encoding-scope',
+                'section %d: got %r' % (i, stream.getvalue()[pos:pos + 80]))
+
+    return None
+
+
 def judge(program, foreign_le=False):
     """Returns None or (kind, detail)."""
     _self_check()
@@ -124,6 +160,14 @@ def judge(program, foreign_le=False):
                 'section %d (%s): got %r, expected %r' %
                 (i, program['calls'][i - 1][0] if i else 'diffx',
                  data[pos:pos + 80], segs[min(i, len(segs) - 1)][0][:80]))
+
+    # writer side again, with refused container calls interleaved: a call
+    # the section order forbids must not touch the encoding scope
+    if foreign_le:
+        res = write_with_refused_calls(program, segs)
+
+        if res is not None:
+            return res
 
     # reader side, on the writer's bytes and on the reference bytes
     blobs = [('writer-output', data),
@@ -253,7 +297,9 @@ def checks():
                  'the shape bound, each change/file in {omits, utf-16-be, '
                  'cp037}, all content sections inheriting (main preamble, '
                  'main meta, change preamble, change meta, file meta, file '
-                 'diff); writer bytes == reference, reader on writer bytes '
+                 'diff); writer bytes == reference (also when every container '
+                 'call the order forbids is attempted, and refused, after '
+                 'each step), reader on writer bytes '
                  'and on reference bytes gives the written contents; '
                  'non-trivial = a change follows a file inside a change that '
                  'declared an encoding, or sibling files with different '
